@@ -40,7 +40,7 @@ def enumerate_lattice(ctx: Ctx, n: int, mems, shards: int | None = None, sub=Non
     def one(k):
         cfg = write_cfg(ctx, n, mems, shards, k, sub)
         return run_tlc(ctx, f"lattice n={n} shard {k}/{shards}", "MCKernels", cfg, workers=1,
-                       timeout=3000, record=False, heap="3g")
+                       timeout=10800, record=False, heap="3g")
 
     with ThreadPoolExecutor(max_workers=min(shards, NCPU)) as ex:
         outs = list(ex.map(one, range(shards)))
